@@ -217,3 +217,370 @@ Proof.
   assert (0 <= pending p2); [|lia].
   unfold pending, Lloc in *. destruct (pc p2); lia.
 Qed.
+
+Lemma tsum_minus g h l : tsum (fun th => g th - h th) l = tsum g l - tsum h l.
+Proof. induction l as [|[t2 p2] r IH]; cbn; [reflexivity|rewrite IH; lia]. Qed.
+
+Lemma tsum_others_le g h t l th :
+  (forall x, g x <= h x) -> lookup t l = Some th -> tsum g l - g th <= tsum h l - h th.
+Proof.
+  intros H Hl. rewrite <- (tsum_remove g t l th Hl), <- (tsum_remove h t l th Hl). apply tsum_le, H.
+Qed.
+
+Lemma tsum_zero_of g h l :
+  (forall th, 0 <= h th) -> (forall th, h th = 0 -> g th = 0) -> tsum h l = 0 -> tsum g l = 0.
+Proof.
+  intros Hh Hg. induction l as [|[t2 p2] r IH]; cbn; [reflexivity|].
+  intros H. pose proof (tsum_nonneg h r Hh). pose proof (Hh p2).
+  rewrite (Hg p2), IH; lia.
+Qed.
+
+(* program counters at which `pending` may be non-zero *)
+Definition pend_pc (p : ppc) : bool :=
+  match p with TiUnlock | StLoop | StGo | SiUnlock | TsId | TsGo => true | _ => false end.
+Definition pend (th : thr) : Z := b2z (pend_pc (pc th)).
+
+Lemma le_pre_hold x : pre x <= hold x.
+Proof. unfold pre, hold, hold_pc. destruct (pc x); cbn; lia. Qed.
+Lemma le_thold_hold x : thold x <= hold x.
+Proof. unfold thold, hold, hold_pc. destruct (pc x); cbn; lia. Qed.
+Lemma le_res_hold x : res x <= hold x.
+Proof. unfold res, hold, hold_pc. destruct (pc x); cbn; lia. Qed.
+Lemma le_pend_hold x : pend x <= hold x.
+Proof. unfold pend, hold, hold_pc. destruct (pc x); cbn; lia. Qed.
+Lemma le_wcount_wany x : wcount x <= wany x.
+Proof. unfold wcount, wany, worker_pc. destruct (wcount_pc (pc x)); cbn; [lia|apply b2z_nonneg]. Qed.
+Lemma pend_nonneg x : 0 <= pend x. Proof. apply b2z_nonneg. Qed.
+Lemma pend_zero x : pend x = 0 -> pending x = 0.
+Proof. unfold pend, pending. destruct (pc x); cbn; intros; try reflexivity; discriminate. Qed.
+
+Lemma hold_eq th : hold th = b2z (hold_pc (pc th)). Proof. reflexivity. Qed.
+Lemma thold_eq th : thold th = b2z (thold_pc (pc th)). Proof. reflexivity. Qed.
+Lemma pre_eq th : pre th = b2z (pre_pc (pc th)). Proof. reflexivity. Qed.
+Lemma wcount_eq th : wcount th = b2z (wcount_pc (pc th)). Proof. reflexivity. Qed.
+Lemma wany_eq th : wany th = b2z (worker_pc (pc th)). Proof. reflexivity. Qed.
+Lemma wrun_eq th : wrun th = b2z (wrun_pc (pc th)). Proof. reflexivity. Qed.
+Lemma res_eq th : res th = b2z (res_pc (pc th)). Proof. reflexivity. Qed.
+Lemma pend_eq th : pend th = b2z (pend_pc (pc th)). Proof. reflexivity. Qed.
+Lemma pending_eq th : pending th =
+  match pc th with
+  | TiUnlock | StLoop => l_n th
+  | StGo => l_n th - l_a th
+  | SiUnlock | TsId | TsGo => 1
+  | _ => 0
+  end. Proof. reflexivity. Qed.
+
+Ltac split_ifs :=
+  repeat match goal with
+  | H : context [if ?b then _ else _] |- _ =>
+    match b with
+    | context [tsum] => fail 1
+    | _ => let E := fresh "Ei" in destruct b eqn:E
+    end
+  end.
+
+Lemma sz_want th : sz (want th) = if l_second th then 2 else 1.
+Proof. unfold want. destruct (l_second th); reflexivity. Qed.
+
+(* everything the invariant looks at in a program counter *)
+Definition cls (p : ppc) :=
+  (hold_pc p, thold_pc p, pre_pc p, wcount_pc p, worker_pc p, wrun_pc p, res_pc p).
+
+(* frame lemma: a statement that keeps the classification of the stepping goroutine, spawns nothing and
+   leaves state word, totalGo and numGoRunningTasks alone preserves the invariant *)
+Lemma inv_frame P c t th th' s' c' obs g w :
+  Inv P c -> lookup t (c_thr c) = Some th ->
+  apply_out c t (mkOut s' (Some th') None None w g) = Some (c', obs) ->
+  s_state s' = s_state (c_sh c) -> s_prev s' = s_prev (c_sh c) ->
+  s_total s' = s_total (c_sh c) -> s_running s' = s_running (c_sh c) ->
+  cls (pc th') = cls (pc th) -> pending th' = pending th ->
+  (hold_pc (pc th) = true -> want th' = want th) ->
+  Lloc P th' -> Inv P c'.
+Proof.
+  intros [Vpar Vhold Vlock Vprev Vloc Vtotal Vrun Vres Vpre Vcr Vlcr] Hl Ha Es Ep Et Er Ec Epd Ew HL.
+  unfold cls in Ec. injection Ec as E1 E2 E3 E4 E5 E6 E7.
+  pose proof (apply_out_tsum hold c t th _ c' obs wi_hold Hl Ha) as Ehold.
+  pose proof (apply_out_tsum thold c t th _ c' obs wi_thold Hl Ha) as Ethold.
+  pose proof (apply_out_tsum pre c t th _ c' obs wi_pre Hl Ha) as Epre.
+  pose proof (apply_out_tsum wcount c t th _ c' obs wi_wcount Hl Ha) as Ewcount.
+  pose proof (apply_out_tsum wany c t th _ c' obs wi_wany Hl Ha) as Ewany.
+  pose proof (apply_out_tsum wrun c t th _ c' obs wi_wrun Hl Ha) as Ewrun.
+  pose proof (apply_out_tsum res c t th _ c' obs wi_res Hl Ha) as Eres.
+  pose proof (apply_out_tsum pending c t th _ c' obs wi_pending Hl Ha) as Epend.
+  destruct (apply_out_fields c t _ c' obs Ha) as (Fpar & Fsh & _ & _ & _).
+  cbn [o_th o_spawn o_sh oget] in *.
+  unfold hold, thold, pre, wcount, wany, wrun, res in Ehold, Ethold, Epre, Ewcount, Ewany, Ewrun, Eres.
+  rewrite E1 in Ehold. rewrite E2 in Ethold. rewrite E3 in Epre. rewrite E4 in Ewcount.
+  rewrite E5 in Ewany. rewrite E6 in Ewrun. rewrite E7 in Eres. rewrite Epd in Epend.
+  fold hold in Ehold. fold thold in Ethold. fold pre in Epre. fold wcount in Ewcount. fold wany in Ewany.
+  fold wrun in Ewrun. fold res in Eres.
+  assert (Ah : tsum hold (c_thr c') = tsum hold (c_thr c)) by (clear - Ehold; lia).
+  assert (Ath : tsum thold (c_thr c') = tsum thold (c_thr c)) by (clear - Ethold; lia).
+  assert (Apre : tsum pre (c_thr c') = tsum pre (c_thr c)) by (clear - Epre; lia).
+  assert (Awc : tsum wcount (c_thr c') = tsum wcount (c_thr c)) by (clear - Ewcount; lia).
+  assert (Awa : tsum wany (c_thr c') = tsum wany (c_thr c)) by (clear - Ewany; lia).
+  assert (Awr : tsum wrun (c_thr c') = tsum wrun (c_thr c)) by (clear - Ewrun; lia).
+  assert (Are : tsum res (c_thr c') = tsum res (c_thr c)) by (clear - Eres; lia).
+  assert (Apd : tsum pending (c_thr c') = tsum pending (c_thr c)) by (clear - Epend; lia).
+  clear Ehold Ethold Epre Ewcount Ewany Ewrun Eres Epend.
+  constructor; rewrite ?Fsh, ?Es, ?Ep, ?Et, ?Er, ?Ah, ?Ath, ?Apre, ?Awc, ?Awa, ?Awr, ?Are, ?Apd.
+  - congruence.
+  - exact Vhold.
+  - exact Vlock.
+  - eapply apply_out_tall; [apply wo_Lprev| |exact Ha| |].
+    + apply (Lprev_transfer (c_sh c)); [left; exact Ep|exact Vprev].
+    + cbn [o_th]. intros x E; injection E as <-. unfold Lprev, want'. rewrite E1, E2, Ep.
+      intros Hh. rewrite (Ew Hh). exact (tall_lookup _ _ _ _ Vprev Hl Hh).
+    + cbn [o_spawn]. intros x E; discriminate E.
+  - eapply apply_out_tall; [apply wo_Lloc|exact Vloc|exact Ha| |].
+    + cbn [o_th]. intros x E; injection E as <-. exact HL.
+    + cbn [o_spawn]. intros x E; discriminate E.
+  - exact Vtotal.
+  - exact Vrun.
+  - rewrite <- Vpar. rewrite Vpar. exact Vres.
+  - exact Vpre.
+  - exact Vcr.
+  - exact Vlcr.
+Qed.
+
+(* a call that returns (or a goroutine that ends) from a program counter the invariant does not count *)
+Lemma inv_frame_exit P c t th s' r c' obs g w :
+  Inv P c -> lookup t (c_thr c) = Some th ->
+  apply_out c t (mkOut s' None r None w g) = Some (c', obs) ->
+  s_state s' = s_state (c_sh c) -> s_prev s' = s_prev (c_sh c) ->
+  s_total s' = s_total (c_sh c) -> s_running s' = s_running (c_sh c) ->
+  cls (pc th) = (false, false, false, false, false, false, false) -> pending th = 0 ->
+  Inv P c'.
+Proof.
+  intros [Vpar Vhold Vlock Vprev Vloc Vtotal Vrun Vres Vpre Vcr Vlcr] Hl Ha Es Ep Et Er Ec Epd.
+  unfold cls in Ec. injection Ec as E1 E2 E3 E4 E5 E6 E7.
+  pose proof (apply_out_tsum hold c t th _ c' obs wi_hold Hl Ha) as Ehold.
+  pose proof (apply_out_tsum thold c t th _ c' obs wi_thold Hl Ha) as Ethold.
+  pose proof (apply_out_tsum pre c t th _ c' obs wi_pre Hl Ha) as Epre.
+  pose proof (apply_out_tsum wcount c t th _ c' obs wi_wcount Hl Ha) as Ewcount.
+  pose proof (apply_out_tsum wany c t th _ c' obs wi_wany Hl Ha) as Ewany.
+  pose proof (apply_out_tsum wrun c t th _ c' obs wi_wrun Hl Ha) as Ewrun.
+  pose proof (apply_out_tsum res c t th _ c' obs wi_res Hl Ha) as Eres.
+  pose proof (apply_out_tsum pending c t th _ c' obs wi_pending Hl Ha) as Epend.
+  destruct (apply_out_fields c t _ c' obs Ha) as (Fpar & Fsh & _ & _ & _).
+  cbn [o_th o_spawn o_sh oget] in *.
+  unfold hold, thold, pre, wcount, wany, wrun, res in Ehold, Ethold, Epre, Ewcount, Ewany, Ewrun, Eres.
+  rewrite E1 in Ehold. rewrite E2 in Ethold. rewrite E3 in Epre. rewrite E4 in Ewcount.
+  rewrite E5 in Ewany. rewrite E6 in Ewrun. rewrite E7 in Eres. rewrite Epd in Epend.
+  fold hold in Ehold. fold thold in Ethold. fold pre in Epre. fold wcount in Ewcount. fold wany in Ewany.
+  fold wrun in Ewrun. fold res in Eres. cbn [b2z] in *.
+  assert (Ah : tsum hold (c_thr c') = tsum hold (c_thr c)) by (clear - Ehold; lia).
+  assert (Ath : tsum thold (c_thr c') = tsum thold (c_thr c)) by (clear - Ethold; lia).
+  assert (Apre : tsum pre (c_thr c') = tsum pre (c_thr c)) by (clear - Epre; lia).
+  assert (Awc : tsum wcount (c_thr c') = tsum wcount (c_thr c)) by (clear - Ewcount; lia).
+  assert (Awa : tsum wany (c_thr c') = tsum wany (c_thr c)) by (clear - Ewany; lia).
+  assert (Awr : tsum wrun (c_thr c') = tsum wrun (c_thr c)) by (clear - Ewrun; lia).
+  assert (Are : tsum res (c_thr c') = tsum res (c_thr c)) by (clear - Eres; lia).
+  assert (Apd : tsum pending (c_thr c') = tsum pending (c_thr c)) by (clear - Epend; lia).
+  clear Ehold Ethold Epre Ewcount Ewany Ewrun Eres Epend.
+  constructor; rewrite ?Fsh, ?Es, ?Ep, ?Et, ?Er, ?Ah, ?Ath, ?Apre, ?Awc, ?Awa, ?Awr, ?Are, ?Apd.
+  - congruence.
+  - exact Vhold.
+  - exact Vlock.
+  - eapply apply_out_tall; [apply wo_Lprev| |exact Ha| |].
+    + apply (Lprev_transfer (c_sh c)); [left; exact Ep|exact Vprev].
+    + cbn [o_th]. intros x E; discriminate E.
+    + cbn [o_spawn]. intros x E; discriminate E.
+  - eapply apply_out_tall; [apply wo_Lloc|exact Vloc|exact Ha| |].
+    + cbn [o_th]. intros x E; discriminate E.
+    + cbn [o_spawn]. intros x E; discriminate E.
+  - exact Vtotal.
+  - exact Vrun.
+  - exact Vres.
+  - exact Vpre.
+  - exact Vcr.
+  - exact Vlcr.
+Qed.
+
+Ltac ifs_in H :=
+  repeat match type of H with
+  | context [if ?b then _ else _] => let E := fresh "Ei" in destruct b eqn:E
+  end.
+
+Ltac lloc_tac HV HI Hl Epc :=
+  let Lth := fresh "Lth" in
+  pose proof (tall_lookup _ _ _ _ (v_loc _ _ HI) Hl) as Lth;
+  unfold Lloc in Lth |- *; rewrite Epc in Lth; cbn in Lth |- *;
+  first [ exact I | exact Lth | assumption
+        | (clear HI; destruct HV as (?&?&?&?&?); lia)
+        | (clear HI; destruct HV as (?&?&?&?&?); intuition lia) ].
+
+Ltac frame_tac HV HI Hl Ha Epc :=
+  first
+  [ eapply (inv_frame _ _ _ _ _ _ _ _ _ _ HI Hl Ha);
+    [ reflexivity | reflexivity | reflexivity | reflexivity
+    | cbn [pc goto]; rewrite Epc; reflexivity
+    | unfold pending; cbn [pc goto]; rewrite Epc; reflexivity
+    | first [ reflexivity | (rewrite Epc; cbn; intros X; discriminate X) ]
+    | first [ (unfold Lloc; cbn [pc goto]; exact I) | lloc_tac HV HI Hl Epc ] ]
+  | eapply (inv_frame_exit _ _ _ _ _ _ _ _ _ _ HI Hl Ha);
+    [ reflexivity | reflexivity | reflexivity | reflexivity
+    | rewrite Epc; reflexivity
+    | unfold pending; rewrite Epc; reflexivity ] ].
+
+
+Ltac eqb_facts :=
+  repeat match goal with
+  | H : pstate_eqb _ _ = true |- _ => apply pstate_eqb_sz in H; cbn [sz] in H
+  | H : pstate_eqb _ _ = false |- _ => apply pstate_neqb_sz in H; cbn [sz] in H
+  end.
+
+Ltac shcbn :=
+  cbn [s_state s_prev s_total s_running s_q s_closed s_mp s_gn s_bw s_br s_gw s_gr s_idc s_ictx
+       st_state st_prev st_q st_closed st_total st_running st_mp st_gn st_bw st_br st_gw st_gr st_idc st_ictx sz].
+
+Lemma inv_step_pstep P c t th ch o c' obs :
+  pvalid P -> Inv P c -> lookup t (c_thr c) = Some th ->
+  pstep (c_par c) (parked_of (c_thr c)) (c_sh c) th ch = Some o ->
+  apply_out c t o = Some (c', obs) -> Inv P c'.
+Proof.
+  intros HV HI Hl Hp Ha.
+  pose proof (v_par _ _ HI) as Vpar. rewrite Vpar in Hp.
+  pstep_split Hp Epc.
+  all: unfold unwind, back in Ha.
+  all: ifs_in Ha.
+  all: try solve [frame_tac HV HI Hl Ha Epc].
+  all: destruct HI as [_ Vhold Vlock Vprev Vloc Vtotal Vrun Vres Vpre Vcr Vlcr].
+  all: pose proof (apply_out_tsum hold c t th _ c' obs wi_hold Hl Ha) as Ehold.
+  all: pose proof (apply_out_tsum thold c t th _ c' obs wi_thold Hl Ha) as Ethold.
+  all: pose proof (apply_out_tsum pre c t th _ c' obs wi_pre Hl Ha) as Epre.
+  all: pose proof (apply_out_tsum wcount c t th _ c' obs wi_wcount Hl Ha) as Ewcount.
+  all: pose proof (apply_out_tsum wany c t th _ c' obs wi_wany Hl Ha) as Ewany.
+  all: pose proof (apply_out_tsum wrun c t th _ c' obs wi_wrun Hl Ha) as Ewrun.
+  all: pose proof (apply_out_tsum res c t th _ c' obs wi_res Hl Ha) as Eres.
+  all: pose proof (apply_out_tsum pending c t th _ c' obs wi_pending Hl Ha) as Epend.
+  all: destruct (apply_out_fields c t _ c' obs Ha) as (Fpar & Fsh & _ & _ & _).
+  all: pose proof (tall_lookup _ _ _ _ Vprev Hl) as Pth.
+  all: pose proof (tall_lookup _ _ _ _ Vloc Hl) as Lth.
+  all: pose proof (tsum_ge_lookup hold t _ th hold_nonneg Hl) as Gh.
+  all: pose proof (tsum_ge_lookup wany t _ th wany_nonneg Hl) as Gwany.
+  all: pose proof (tsum_others_le pre hold t _ th le_pre_hold Hl) as Opre.
+  all: pose proof (tsum_others_le thold hold t _ th le_thold_hold Hl) as Othold.
+  all: pose proof (tsum_others_le res hold t _ th le_res_hold Hl) as Ores.
+  all: pose proof (tsum_others_le pend hold t _ th le_pend_hold Hl) as Opend.
+  all: pose proof (tsum_le wcount wany (c_thr c) le_wcount_wany) as Hcw.
+  all: pose proof (tsum_nonneg hold (c_thr c) hold_nonneg) as Nh.
+  all: pose proof (tsum_nonneg thold (c_thr c) thold_nonneg) as Nth.
+  all: pose proof (tsum_nonneg pre (c_thr c) pre_nonneg) as Npre.
+  all: pose proof (tsum_nonneg res (c_thr c) res_nonneg) as Nres.
+  all: pose proof (tsum_nonneg wany (c_thr c) wany_nonneg) as Nwany.
+  all: pose proof (tsum_nonneg wcount (c_thr c) wcount_nonneg) as Nwc.
+  all: pose proof (tsum_nonneg pend (c_thr c) pend_nonneg) as Npend.
+  all: pose proof (Lloc_pending_nonneg P _ Vloc HV) as Npending.
+  all: pose proof (tsum_zero_of pending pend (c_thr c) pend_nonneg pend_zero) as Zpend.
+  all: pose proof (tsum_ge_lookup pend t _ th pend_nonneg Hl) as Gpend.
+  all: pose proof (sz_range (s_state (c_sh c))) as Rst.
+  all: pose proof (sz_range (s_prev (c_sh c))) as Rpv.
+  all: rewrite Vpar in *; destruct HV as (V1 & V2 & V3 & V4 & V5).
+  all: cbn [o_th o_spawn o_sh oget] in *.
+  all: rewrite ?hold_eq, ?thold_eq, ?pre_eq, ?wcount_eq, ?wany_eq, ?wrun_eq, ?res_eq, ?pend_eq, ?pending_eq in *.
+  all: unfold Lprev, Lloc, want', new_worker, unlock_state in *.
+  all: rewrite ?Epc in *.
+  all: cbn in Ehold, Ethold, Epre, Ewcount, Ewany, Ewrun, Eres, Epend, Pth, Lth, Gh, Gwany, Opre, Othold, Ores, Opend, Gpend.
+  all: rewrite ?sz_want in *.
+  all: eqb_facts.
+  all: try (specialize (Pth eq_refl)).
+  all: try match type of Pth with false = true -> _ => clear Pth end.
+  all: pose proof (tsum_ge_lookup pre t _ th pre_nonneg Hl) as Gpre.
+  all: pose proof (tsum_ge_lookup thold t _ th thold_nonneg Hl) as Gthold.
+  all: rewrite pre_eq, Epc in Gpre; rewrite thold_eq, Epc in Gthold; cbn in Gpre, Gthold.
+  all: ifs_in Fsh.
+  all: eqb_facts.
+  all: rewrite ?sz_want in *.
+  all: try match goal with H : context [if l_second ?x then _ else _] |- _ => destruct (l_second x) eqn:Esec end.
+  all: try match goal with H : allow _ _ _ _ = true |- _ => unfold allow in H; apply andb_prop in H; destruct H as [H _]; apply Z.ltb_lt in H end.
+  all: constructor; rewrite ?Fsh; shcbn; rewrite ?sz_want; repeat match goal with H : l_second _ = _ |- _ => rewrite H end.
+  all: try exact Fpar.
+  all: try match goal with
+       | |- tall (Lprev _) _ =>
+         eapply apply_out_tall; [ | | exact Ha | | ];
+         [ apply wo_Lprev
+         | apply (Lprev_transfer (c_sh c)); [first [left; reflexivity | right; clear Ha Vprev Vloc Hl; lia] | exact Vprev]
+         | cbn [o_th]; intros x E; first [discriminate E | injection E as <-; unfold Lprev, want'; cbn; intros Hh;
+              first [discriminate Hh | (rewrite ?sz_want; cbn [l_second goto set_ok set_err set_flag set_n set_a set_b set_wid]; repeat match goal with H : l_second _ = _ |- _ => rewrite H end; shcbn; first [reflexivity | assumption | (clear Vprev Vloc Hl; lia)])]]
+         | cbn [o_spawn]; intros x E; first [discriminate E | injection E as <-; unfold Lprev; cbn; intros X; discriminate X] ]
+       | |- tall (Lloc _) _ =>
+         eapply apply_out_tall;
+         [ apply wo_Lloc | exact Vloc | exact Ha
+         | cbn [o_th]; intros x E; first [discriminate E | injection E as <-; unfold Lloc; cbn;
+              first [exact I | assumption | (clear Ha Vprev Vloc Hl; lia) | (clear Ha Vprev Vloc Hl; intuition lia)]]
+         | cbn [o_spawn]; intros x E; first [discriminate E | injection E as <-; unfold Lloc; cbn; exact I] ]
+       end.
+  all: clear Ha Vprev Vloc Hl; lia.
+Qed.
+
+(* ---------------------------------------------------------------- the other events *)
+Lemma apply_out_update c t th' :
+  apply_out c t (mkOut (c_sh c) (Some th') None None WkNone []) =
+  Some (with_thr c (update t th' (c_thr c)), obs_of t th' ++ []).
+Proof. reflexivity. Qed.
+
+Lemma inv_update P c t th th' :
+  Inv P c -> lookup t (c_thr c) = Some th ->
+  cls (pc th') = cls (pc th) -> pending th' = pending th ->
+  (hold_pc (pc th) = true -> want th' = want th) -> Lloc P th' ->
+  Inv P (with_thr c (update t th' (c_thr c))).
+Proof.
+  intros HI Hl E1 E2 E3 E4.
+  eapply (inv_frame P c t th th' (c_sh c) _ _ [] WkNone HI Hl (apply_out_update c t th')); auto.
+Qed.
+
+Lemma Lloc_same_pc P th th' :
+  pc th' = pc th -> l_n th' = l_n th -> l_a th' = l_a th -> l_b th' = l_b th -> l_second th' = l_second th ->
+  Lloc P th -> Lloc P th'.
+Proof. unfold Lloc. intros -> -> -> -> ->. auto. Qed.
+
+Lemma inv_init P : Inv P (pinit P).
+Proof.
+  constructor; cbn; try reflexivity; try lia; try constructor.
+  - intros H; discriminate.
+  - intros H; discriminate.
+Qed.
+
+Lemma inv_step P c e c' : pvalid P -> Inv P c -> pstep_cfg c e = Some c' -> Inv P c'.
+Proof.
+  intros HV HI Hs. apply pstep_cfg_inv in Hs. destruct e as [t op|t ch|t|t|t].
+  - (* PCall *)
+    destruct Hs as (Hl & Hb & -> & Hid).
+    destruct HI as [Vpar Vhold Vlock Vprev Vloc Vtotal Vrun Vres Vpre Vcr Vlcr].
+    assert (Hz : forall g, (forall op, g (enter (c_sh c) op) = 0) ->
+                 tsum g (spawn t (enter (c_sh c) op) (c_thr c)) = tsum g (c_thr c)).
+    { intros g Hg. rewrite tsum_spawn, Hg. lia. }
+    assert (Hc : forall op, pc (enter (c_sh c) op) = pc (enter0 op)) by (intros o; reflexivity).
+    constructor; cbn [c_par c_sh c_thr];
+      rewrite ?(Hz hold), ?(Hz thold), ?(Hz pre), ?(Hz wcount), ?(Hz wany), ?(Hz wrun), ?(Hz res), ?(Hz pending);
+      auto; try (intros o; destruct o; reflexivity).
+    + apply tall_spawn; [exact Vprev|]. unfold Lprev. destruct op; cbn; intros H; discriminate H.
+    + apply tall_spawn; [exact Vloc|]. unfold Lloc. destruct op; cbn; exact I.
+  - (* PStep *)
+    destruct Hs as (th & o & obs & Hl & Hp & Ha). eapply inv_step_pstep; eauto.
+  - (* PCancel *)
+    destruct Hs as (th & Hl & _ & ->).
+    apply (inv_update P c t th); auto.
+    eapply Lloc_same_pc; [| | | | |exact (tall_lookup _ _ _ _ (v_loc _ _ HI) Hl)]; reflexivity.
+  - (* PFire *)
+    destruct Hs as (th & Hl & _ & ->).
+    destruct (is_parked th) eqn:Ep.
+    + apply is_parked_pc in Ep. apply (inv_update P c t th); auto.
+      * cbn. rewrite Ep. reflexivity.
+      * unfold pending. cbn. rewrite Ep. reflexivity.
+      * unfold Lloc. cbn. exact I.
+    + apply (inv_update P c t th); auto.
+      eapply Lloc_same_pc; [| | | | |exact (tall_lookup _ _ _ _ (v_loc _ _ HI) Hl)]; reflexivity.
+  - (* PFinish *)
+    destruct Hs as (th & obs & Hl & Epc & Ha).
+    eapply (inv_frame P c t th _ _ _ _ _ _ HI Hl Ha); try reflexivity.
+    + cbn. rewrite Epc. reflexivity.
+    + unfold pending. cbn. rewrite Epc. reflexivity.
+    + unfold Lloc. cbn. exact I.
+Qed.
+
+Theorem inv_reach P c : pvalid P -> preach P c -> Inv P c.
+Proof.
+  intros HV. apply preach_ind; [apply inv_init|]. intros c0 e c1 H. apply inv_step; assumption.
+Qed.
